@@ -32,7 +32,11 @@ def case_strategy(draw, tier):
         rec = draw(genheat.heat_net(max_n=4 if tier == "quick" else 8, allow_oos=True))
         opts = draw(genheat.heat_options(tight=draw(st.booleans())))
     else:
-        rec, opts = draw(gen.hyd_case(max_n=9 if tier == "quick" else 25))
+        focus = draw(st.sampled_from(["any", "any", "pumps", "compressors"]))
+        # several pumps / compressors are only feasible without a bypass around them: tree nets with one feeder
+        kw = {"pumps": dict(liquids_only=True, lift_bias=10, extra_edges=0, allow_parallel=False, max_eg=1),
+              "compressors": dict(gases_only=True, lift_bias=10, extra_edges=0, allow_parallel=False, max_eg=1)}.get(focus, {})
+        rec, opts = draw(gen.hyd_case(max_n=9 if tier == "quick" else 25, **kw))
         opts["mode"] = "hydraulics"
     return {"recipe": rec, "options": opts}
 
